@@ -896,48 +896,45 @@ func fieldRace(c *run.Ctx) run.Result {
 	res.Sample = sc
 	c.Note("race scene " + sc.sig())
 	input := sc.inputClass()
-	prA := &probe{cpu: sc.CPU, anchor: sc.Anchor}
-	cA, pa := sc.fill(addPar, prA)
-	prB := &probe{cpu: sc.CPU, anchor: sc.Anchor}
-	cB, pb := sc.fill(addPar2, prB)
-	if pa != nil {
-		res.Violate("runtime-panic", adderSite[addPar], input, pa.Value+"\n"+pa.Stack, sc.witness())
-	}
-	if pb != nil {
-		res.Violate("runtime-panic", adderSite[addPar2], input, pb.Value+"\n"+pb.Stack, sc.witness())
-	}
-	if pa != nil || pb != nil {
-		return res
-	}
 	res.SetAdd("race_gomaxprocs", fmt.Sprint(runtime.GOMAXPROCS(0)))
 	res.SetAdd("gomaxprocs", fmt.Sprint(runtime.GOMAXPROCS(0)))
-	res.Count("race_field_blocks_filled", int64(2*sc.blocks*len(sc.Attrs)))
+	prA := &probe{cpu: sc.CPU, anchor: sc.Anchor}
+	prB := &probe{cpu: sc.CPU, anchor: sc.Anchor}
 	tris := 0
-	for _, attr := range marchAttrs {
-		var sets []*triSet
-		for which, cv := range []*marching.MarchingCanvas{cA, cB} {
-			if c.Tier != "thorough" && which != c.Case%2 {
-				continue
-			}
-			c.Note(fmt.Sprintf("MarchParallel canvas %d %s", which, attr))
-			ts, p := march(cv, attr, sc.Cutoff, true)
-			if p != nil {
-				res.Violate("runtime-panic", "MarchingCanvas.MarchOnAttributeParallel", input, p.Value+"\n"+p.Stack, sc.witness())
-				continue
-			}
-			if ts.err != "" {
-				res.Violate("march-malformed", "MarchingCanvas.MarchOnAttributeParallel", input, ts.err, sc.witness())
-				continue
-			}
-			sets = append(sets, ts)
-			tris += ts.n
-			res.Count("race_field_blocks_marched", int64(sc.blocks))
+	attr := modeling.PositionAttribute
+	var sets []*triSet
+	// each canvas is marched right after it was filled: work that an adder left running
+	// behind its return then overlaps with the march that reads the same blocks
+	for which, how := range []adder{addPar, addPar2} {
+		pr := []*probe{prA, prB}[which]
+		c.Note("fill with " + adderSite[how])
+		cv, pn := sc.fill(how, pr)
+		if pn != nil {
+			res.Violate("runtime-panic", adderSite[how], input, pn.Value+"\n"+pn.Stack, sc.witness())
+			continue
 		}
-		if len(sets) == 2 {
-			if d := sets[0].diff(sets[1], sc.tight(attr)); d != "" {
-				res.Violate("field-accumulate-mismatch", "MarchingCanvas.AddFieldParallel / AddFieldParallel2", input,
-					"attribute "+attr+": the canvases filled by AddFieldParallel (reference below) and AddFieldParallel2 march (in parallel) to different meshes: "+d, sc.witness())
-			}
+		res.Count("race_field_blocks_filled", int64(sc.blocks*len(sc.Attrs)))
+		if c.Tier != "thorough" && which != c.Case%2 {
+			continue
+		}
+		c.Note(fmt.Sprintf("MarchParallel canvas %d %s", which, attr))
+		ts, p := march(cv, attr, sc.Cutoff, true)
+		if p != nil {
+			res.Violate("runtime-panic", "MarchingCanvas.MarchOnAttributeParallel", input, p.Value+"\n"+p.Stack, sc.witness())
+			continue
+		}
+		if ts.err != "" {
+			res.Violate("march-malformed", "MarchingCanvas.MarchOnAttributeParallel", input, ts.err, sc.witness())
+			continue
+		}
+		sets = append(sets, ts)
+		tris += ts.n
+		res.Count("race_field_blocks_marched", int64(sc.blocks))
+	}
+	if len(sets) == 2 {
+		if d := sets[0].diff(sets[1], sc.tight(attr)); d != "" {
+			res.Violate("field-accumulate-mismatch", "MarchingCanvas.AddFieldParallel / AddFieldParallel2", input,
+				"attribute "+attr+": the canvases filled by AddFieldParallel (reference below) and AddFieldParallel2 march (in parallel) to different meshes: "+d, sc.witness())
 		}
 	}
 	// the probes are read only now, after the marches: an atomic load here would order the
